@@ -64,10 +64,27 @@ def attrs_of(sch, q, seen=None):
     return out
 
 
+def lex_to_coq(t):
+    k = t[0]
+    if k == "int":
+        return "(LInt (%d) (%d))" % (t[1], t[2])
+    if k == "enum":
+        return "(LEnum [%s])" % "; ".join(coq_str(x) for x in t[1])
+    if k == "union":
+        return "(LUnion [%s])" % "; ".join(lex_to_coq(x) for x in t[1])
+    if k == "hex":
+        return "(LHexBin %d)" % t[1]
+    if k == "pct":
+        return "(LPercent %s)" % ("true" if t[1] else "false")
+    if k == "um":
+        return "(LUnivMeasure %s)" % ("true" if t[1] else "false")
+    return {"string": "LString", "bool": "LBool", "double": "LDouble", "unknown": "LUnknown"}[k]
+
+
 def lexspec(sch, q, unm):
-    """XSD simple type -> Gallina lexspec term."""
+    """XSD simple type -> lexical space as a python structure (see lex_to_coq)."""
     if q is None:
-        return "LString"            # attribute without a type = anySimpleType
+        return ("string",)            # attribute without a type = anySimpleType
     if q[0] == "inline":
         _k, st, nsmap, pfx = q
         return lex_of_elem(sch, st, nsmap, pfx, unm)
@@ -75,20 +92,20 @@ def lexspec(sch, q, unm):
         b = q[1]
         if b in BASE_RANGE:
             r = BASE_RANGE[b]
-            return "(LInt (%d) (%d))" % r if r else "LUnknown"
+            return ("int", r[0], r[1]) if r else ("unknown", "unbounded integer " + b)
         if b in STRINGY:
-            return "LString"
+            return ("string",)
         if b == "boolean":
-            return "LBool"
+            return ("bool",)
         if b in ("double", "float"):
-            return "LDouble"
+            return ("double",)
         if b == "hexBinary":
-            return "LUnknown"
+            return ("unknown", "hexBinary without length")
         unm.append("xsd builtin %s" % b)
-        return "LUnknown"
+        return ("unknown", b)
     if q not in sch.stypes:
         unm.append("simple type %s:%s not loaded" % q)
-        return "LUnknown"
+        return ("unknown", "%s:%s" % q)
     e, nsmap, pfx, _f = sch.stypes[q]
     return lex_of_elem(sch, e, nsmap, pfx, unm)
 
@@ -98,11 +115,11 @@ def lex_of_elem(sch, e, nsmap, pfx, unm):
     if u is not None:
         members = [lexspec(sch, sch.qn(m, nsmap, pfx), unm) for m in (u.get("memberTypes") or "").split()]
         members += [lex_of_elem(sch, st, nsmap, pfx, unm) for st in u.findall(XS + "simpleType")]
-        return "(LUnion [%s])" % "; ".join(members)
+        return ("union", members)
     r = e.find(XS + "restriction")
     if r is None:
         unm.append("simple type without restriction/union")
-        return "LUnknown"
+        return ("unknown", "no restriction")
     base = sch.qn(r.get("base"), nsmap, pfx)
     facets = {}
     enums = []
@@ -116,9 +133,9 @@ def lex_of_elem(sch, e, nsmap, pfx, unm):
             facets.setdefault(k, c.get("value"))
     b = lexspec(sch, base, unm)
     if enums:
-        return "(LEnum [%s])" % "; ".join(coq_str(x) for x in enums)
-    if b.startswith("(LInt"):
-        lo, hi = [int(x.strip("()")) for x in b[len("(LInt "):-1].split(") (")]
+        return ("enum", enums)
+    if b[0] == "int":
+        lo, hi = b[1], b[2]
         if "minInclusive" in facets:
             lo = max(lo, int(facets["minInclusive"]))
         if "maxInclusive" in facets:
@@ -127,16 +144,16 @@ def lex_of_elem(sch, e, nsmap, pfx, unm):
             lo = max(lo, int(facets["minExclusive"]) + 1)
         if "maxExclusive" in facets:
             hi = min(hi, int(facets["maxExclusive"]) - 1)
-        return "(LInt (%d) (%d))" % (lo, hi)
+        return ("int", lo, hi)
     if "pattern" in facets:
         p = facets["pattern"]
         if p in PCT:
-            return "(LPercent %s)" % ("true" if PCT[p] else "false")
+            return ("pct", PCT[p])
         if p in UM:
-            return "(LUnivMeasure %s)" % ("true" if UM[p] else "false")
-        return "LUnknown"           # a pattern we do not model: not judged, listed in the evidence
+            return ("um", UM[p])
+        return ("unknown", "pattern " + p)     # a pattern we do not model: not judged, listed in the evidence
     if base == ("xsd", "hexBinary") and "length" in facets:
-        return "(LHexBin %d)" % int(facets["length"])
+        return ("hex", int(facets["length"]))
     return b
 
 
@@ -253,7 +270,7 @@ def probe_desc(st):
         if acc and all(tx(k) == ("ok", str(k)) for k in acc):
             lo_ok, hi_ok = tx(-big)[0] == "ok", tx(big)[0] == "ok"
             if lo_ok and hi_ok:
-                return "DIntAny"
+                return "DIntAnyB" if tx(True) == ("ok", "1") else "DIntAny"
             seed = acc[0]
 
             def bisect(good, bad):
@@ -284,6 +301,11 @@ def probe_desc(st):
             consts = [n.value for n in ast.walk(ast.parse(src)) if isinstance(n, ast.Constant) and isinstance(n.value, str)]
         except Exception:  # noqa
             consts = []
+        # fixed-length strings over a constant alphabet, written upper-cased (ST_HexColorRGB)
+        for alpha in consts:
+            if len(alpha) >= 10 and tx(alpha[:6]) == ("ok", alpha[:6].upper()) and tx(alpha[:5])[1] == "Value" \
+                    and tx(alpha[:7])[1] == "Value" and tx("zzzzz!")[1] == "Value":
+                return "(DCharsetUpper 6 %s)" % coq_str(alpha)
         acc = [c for c in dict.fromkeys(consts) if tx(c) == ("ok", c)]
         if acc and tx("\u0001zz")[1] == "Value" and tx("")[1] == "Value":
             return "(DStrEnum [%s])" % "; ".join(coq_str(m) for m in acc)
@@ -347,25 +369,30 @@ def main():
     for cls, tags in sorted(by_class.items(), key=lambda kv: kv[0].__name__):
         for pname, (aname, st, kind, default) in sorted(attr_decls(cls).items()):
             cands = []
-            for tag in tags:
-                for ty in sorted(restricted.get(tag) or sch.tag_types.get(tag, ())):
-                    if ty in sch.ctypes:
-                        at = attrs_of(sch, ty)
-                        if aname in at:
-                            cands.append((tag, ty, at[aname]))
+            for pool in (lambda tag: restricted.get(tag) or sch.tag_types.get(tag, ()), lambda tag: sch.tag_types.get(tag, ())):
+                for tag in tags:
+                    for ty in sorted(pool(tag)):
+                        if ty in sch.ctypes:
+                            at = attrs_of(sch, ty)
+                            if aname in at:
+                                cands.append((tag, ty, at[aname]))
+                if cands:
+                    break
             if not cands:
                 notjudged.append({"cls": cls.__name__, "attr": aname, "st": st.__name__, "why": "attribute not declared by any candidate XSD type of %s" % tags})
                 continue
-            seen = set()
+            lexes, types = [], []
             for tag, ty, (aty, use, dflt) in cands:
-                key = (ty, repr(aty)[:80])
-                if key in seen:
-                    continue
-                seen.add(key)
                 lx = lexspec(sch, aty, unm)
-                rows.append({"cls": cls.__name__, "tag": tag, "type": "%s:%s" % ty, "attr": aname, "prop": pname,
-                             "st": st.__name__, "kind": kind, "use": use, "lex": lx,
-                             "is_enum": inspect.isclass(st) and issubclass(st, BaseXmlEnum)})
+                if lx not in lexes:
+                    lexes.append(lx)
+                if "%s:%s" % ty not in types:
+                    types.append("%s:%s" % ty)
+            # a tag with several XSD types: a value must be valid for SOME candidate type
+            lx = lexes[0] if len(lexes) == 1 else ("union", lexes)
+            rows.append({"cls": cls.__name__, "tag": cands[0][0], "type": " | ".join(types), "attr": aname, "prop": pname,
+                         "st": st.__name__, "kind": kind, "use": cands[0][2][1], "lex": lx, "lex_coq": lex_to_coq(lx),
+                         "is_enum": inspect.isclass(st) and issubclass(st, BaseXmlEnum)})
     # used simple types must be translatable
     used = {r["st"] for r in rows}
     for c, info in st_info.items():
@@ -396,7 +423,7 @@ def main():
         n = c.__name__
         d = probe_desc(c) if info["w"] else "DCustom"
         rd = probe_rdesc(c) if info["r"] else "RCustom"
-        meta_st[n] = {"desc": d, "rdesc": rd}
+        meta_st[n] = {"desc": d, "rdesc": rd, "w": info["w"], "r": info["r"]}
         DEFS.append("Definition desc_%s : desc := %s." % (n, d))
         DEFS.append("Definition rdesc_%s : rdesc := %s." % (n, rd))
         if d != "DCustom":
@@ -423,14 +450,33 @@ def main():
     L.append("")
     L.append("Open Scope N_scope.")
     out_rows = []
+    wproofs, rproofs = [], []
     for i, r in enumerate(rows):
         r["id"] = i
         if r["is_enum"]:
             d, rd = "(DEnumTokens enum_%s)" % r["st"], "(REnumTokens enum_%s)" % r["st"]
+            fw, fr = "(enum_tokens_to_xml enum_%s)" % r["st"], "(enum_tokens_to_xml enum_%s)" % r["st"]
+            wproofs.append("(fun v => eq_refl)")
+            rproofs.append("(fun s => eq_refl)")
+            r["desc"], r["rdesc"] = "DEnumTokens", "REnumTokens"
         else:
             d, rd = "desc_%s" % r["st"], "rdesc_%s" % r["st"]
-        out_rows.append("  {| ar_id := %d; ar_desc := %s; ar_rdesc := %s; ar_lex := %s |}" % (i, d, rd, r["lex"]))
+            fw, fr = "%s__to_xml" % r["st"], "%s__from_xml" % r["st"]
+            r["desc"], r["rdesc"] = meta_st[r["st"]]["desc"], meta_st[r["st"]]["rdesc"]
+            wproofs.append("desc_%s_ok" % r["st"] if r["desc"] != "DCustom" else None)
+            rproofs.append("rdesc_%s_ok" % r["st"] if r["rdesc"] != "RCustom" else None)
+        out_rows.append("  {| ar_id := %d; ar_desc := %s; ar_rdesc := %s; ar_lex := %s; ar_to_xml := %s; ar_from_xml := %s |}" % (
+            i, d, rd, r["lex_coq"], fw, fr))
     L.append("Definition rows : list attr_row := [\n%s\n]." % ";\n".join(out_rows))
+    L.append("Close Scope N_scope.")
+    # every row whose descriptor is not custom really behaves as its descriptor (for all values)
+    L.append("#[local] Hint Resolve %s : c11w." % " ".join(sorted({w for w in wproofs if w and w.startswith("desc_")})))
+    L.append("#[local] Hint Resolve %s : c11r." % " ".join(sorted({w for w in rproofs if w and w.startswith("rdesc_")})))
+    L.append("Lemma rows_write_desc : Forall (fun r => is_custom_w (ar_desc r) = false -> forall v, ar_to_xml r v = desc_to_xml (ar_desc r) v) rows.")
+    L.append("Proof. unfold rows. repeat (constructor; [ cbv beta; cbn [ar_to_xml ar_desc]; intros H; first [ vm_compute in H; discriminate H | clear H; solve [ auto with c11w ] | clear H; intros; reflexivity ] | ]). constructor. Qed.")
+    L.append("Lemma rows_read_desc : Forall (fun r => is_custom_r (ar_rdesc r) = false -> forall s, ar_from_xml r (PStr s) = rdesc_from_xml (ar_rdesc r) (PStr s)) rows.")
+    L.append("Proof. unfold rows. repeat (constructor; [ cbv beta; cbn [ar_from_xml ar_rdesc]; intros H; first [ vm_compute in H; discriminate H | clear H; solve [ auto with c11r ] | clear H; intros; reflexivity ] | ]). constructor. Qed.")
+    L.append("Open Scope N_scope.")
     # known findings
     kf_path = os.path.join(VERIF, "known_findings.json")
     known_w, known_r = set(), set()
@@ -439,15 +485,25 @@ def main():
             if e.get("property") == "C11" and e.get("status") == "known":
                 s = e.get("signature", "")
                 if s.startswith("attr-write:"):
-                    known_w.add(s[len("attr-write:"):])
+                    known_w.add(e.get("row", ""))
                 if s.startswith("attr-read:"):
-                    known_r.add(s[len("attr-read:"):])
+                    known_r.add(e.get("row", ""))
     for r in rows:
         r["sig"] = "%s/@%s:%s" % (r["cls"], r["attr"], r["st"])
     L.append("Definition known_write : list N := [%s]." % "; ".join(str(r["id"]) for r in rows if r["sig"] in known_w))
     L.append("Definition known_read : list N := [%s]." % "; ".join(str(r["id"]) for r in rows if r["sig"] in known_r))
     L.append("Close Scope N_scope.")
     L.append("Definition n_unmodelled : nat := %d%%nat." % len(unm))
+    disp_w = "fun v => Err OtherErr"
+    disp_r = "fun v => Err OtherErr"
+    for c, info in sorted(st_info.items(), key=lambda kv: kv[0].__name__, reverse=True):
+        n = c.__name__
+        if info["w"]:
+            disp_w = "if str_eqb name %s then %s__to_xml else %s" % (coq_str(n), n, disp_w)
+        if info["r"]:
+            disp_r = "if str_eqb name %s then %s__from_xml else %s" % (coq_str(n), n, disp_r)
+    L.append("Definition dispatch_to_xml (name : str) : pyval -> res pyval := %s." % disp_w)
+    L.append("Definition dispatch_from_xml (name : str) : pyval -> res pyval := %s." % disp_r)
     write_if_changed(os.path.join(VERIF, "coq", "gen", "GenC11.v"), "\n".join(L) + "\n")
     json.dump({"rows": rows, "simple_types": meta_st, "enums": enums, "unmodelled": unm, "abstract": abstract,
                "notjudged": notjudged, "n_defs": len(tr.defs)},
